@@ -294,10 +294,8 @@ def round_(number, num_digits=0):
 
     num_digits = int(num_digits)
     if num_digits >= 0:  # round to the right side of the point
-        return float(Decimal(repr(number)).quantize(
-            Decimal(repr(pow(10, -num_digits))),
-            rounding=ROUND_HALF_UP
-        ))
+        return float(_quantize(
+            number, Decimal(f'1E-{num_digits}'), rounding=ROUND_HALF_UP))
         # see https://docs.python.org/2/library/functions.html#round
         # and https://gist.github.com/ejamesc/cedc886c5f36e2d075c5
 
@@ -309,7 +307,16 @@ def round_(number, num_digits=0):
 def _round(number, num_digits, rounding):
     num_digits = int(num_digits)
     quant = Decimal(f'1E{"+-"[num_digits >= 0]}{abs(num_digits)}')
-    return float(Decimal(repr(number)).quantize(quant, rounding=rounding))
+    return float(_quantize(number, quant, rounding=rounding))
+
+
+def _quantize(number, quant, rounding):
+    value = Decimal(repr(number))
+    if value.as_tuple().exponent >= quant.as_tuple().exponent:
+        # a multiple of the quantum already (quantize() raises when the
+        # result needs more digits than the decimal context has)
+        return value
+    return value.quantize(quant, rounding=rounding)
 
 
 @excel_math_func
